@@ -23,7 +23,8 @@ RULE = ("states = distinct trivia variants / lexeme strings; transitions = real 
         "tokenisations; every variant's AST must equal the base's and every lexically valid string's real token "
         "stream must equal the reference stream (both readings agreeing)")  # fmt: skip
 
-TRIVIA = [" ", "\t", "\n", "\r\n", "  \n  ", "\f", "\v", "\r", "// c", "/* */ //", "// c\n", "//\n", "// ' \"\n", "// /* \n", "// */ x\n", "/* c */", "/**/", "/***/",
+TRIVIA = ["// c\r x\n", "// c\x0b x\n", "// c\x0c x\n", "// c\x1c x\n", "// c\x85 x\n", "// c\u2028 x\n", "// c\u2029, \"b\" weighted 1\n", "/* c\r x */",
+          " ", "\t", "\n", "\r\n", "  \n  ", "\f", "\v", "\r", "// c", "/* */ //", "// c\n", "//\n", "// ' \"\n", "// /* \n", "// */ x\n", "/* c */", "/**/", "/***/",
           "/* * / */", "/* ' */", '/* " */', "/* // */", "/* if return */", "/* a */ /* b */", "/* a */\n/* b */", "/* m\nl */",
           "/* é */", "// é\n", "/*\n*/", "/* x **/", "/* a */ // b\n", "/* } */", "/* \"s\" weighted 1, */"]  # fmt: skip
 
